@@ -841,7 +841,8 @@ func init() {
 //	`WRITE`                        the field is assigned
 //	`returned` / `expr`
 //
-// Variable names and the text of conditions are not part of the fact.
+// Variable names, the text of conditions and the names of unexported functions are not part of the fact (the enclosing
+// function is named only when it is an exported function / method of an exported type).
 func init() {
 	gen("OptionSites", func(r *Repo) (string, error) {
 		e, err := r.TEnv()
@@ -876,7 +877,15 @@ func init() {
 					if !ok || fd.Body == nil {
 						continue
 					}
-					fn := funcName(fd)
+					// the enclosing function is part of the fact only when it is API (an exported function, or an exported method of an
+					// exported type): unexported helpers may be renamed, split and merged freely
+					fn := "(unexported)"
+					if fd.Name.IsExported() {
+						fn = funcName(fd)
+						if fd.Recv != nil && !ast.IsExported(strings.SplitN(fn, ".", 2)[0]) {
+							fn = "(unexported)"
+						}
+					}
 					var stack []ast.Node
 					ast.Inspect(fd.Body, func(n ast.Node) bool {
 						if n == nil {
@@ -897,6 +906,9 @@ func init() {
 										callee := types.ExprString(t.Fun)
 										if fo := calleeOf(info, t); fo != nil {
 											callee = shortFuncName(fo)
+											if fo.Pkg() == p.Types && !fo.Exported() {
+												callee = "an unexported function of the package"
+											}
 										} else if id, ok := unparen(t.Fun).(*ast.Ident); ok {
 											if _, isB := info.Uses[id].(*types.Builtin); !isB {
 												callee = "a function value"
